@@ -111,4 +111,24 @@ theorem spelling_does_not_change_decisions (above q : Path) (sub : Name) (hsub :
   rw [this, walkSegs_plain above q hq]
   exact checkPath_relocate above q
 
+/-! ### symbolic links -/
+
+/-- without links the link-aware walk is the plain walk -/
+theorem walkSegsL_nil (start : Path) (segs : List Name) : walkSegsL [] start segs = walkSegs start segs := by
+  induction segs generalizing start with
+  | nil => rfl
+  | cons seg rest ih =>
+    simp only [walkSegsL, walkSegs, follow, List.find?_nil, ih]
+
+/-- **a spelling that goes through a link resolves to what the same spelling through the link's target
+    resolves to**: reaching the project as `link/…` and as `proj/…` names the same files -/
+theorem through_link (links : Links) (par : Path) (n : Name) (tgt : Path) (rest : List Name)
+    (hn : isSpecial n = false) (h : follow links (par ++ [n]) = tgt) :
+    walkSegsL links par (n :: rest) = walkSegsL links tgt rest := by
+  simp only [isSpecial, Bool.or_eq_false_iff] at hn
+  simp only [walkSegsL, hn.1.1, hn.1.2, hn.2, Bool.false_or, Bool.false_eq_true, if_false, h]
+
+example : resolveSpellingL [(["w".toList, "link".toList], ["w".toList, "proj".toList])] ["w".toList] false
+    ["link".toList, "src".toList, "..".toList, "lib".toList] = ["w".toList, "proj".toList, "lib".toList] := by decide
+
 end ThaiLintModel.C09
